@@ -5,13 +5,3 @@ NOTES = ("All checks: ./check <ID> [--tier quick|thorough]; seeds derive from VE
 
 NOT_APPLICABLE = {}
 
-CHECKS = {
- "C06": {
-  "technique": "property-based testing (rapid): generated topologies/free sets/hints with validity + completeness oracle, and a model-based state machine over allocate/update/release",
-  "text": ("Generated-input search: every takeCPUs/takePreferredCPUs result is checked for exact count and containment in the free set on arbitrary "
-           "(asymmetric) free sets; the NUMA split is checked two-directionally (exact, per-node bounded, inside the hint, and succeeds iff the hinted "
-           "nodes together hold the request for divisible resources) for any subset hint; allocate/update/release histories are compared after every "
-           "step with a reference model of per-CPU holders and per-NUMA sums. Exploration, not proof: absence of violations over the sampled cases."),
-  "note": "regular topologies; allocations enter the ledger only via Allocate+Update; rapid's PRNG and shrinker; Go map iteration inside koordinator is not controlled",
- },
-}
